@@ -96,6 +96,7 @@ func (c *Conn) handleAuthenticate(tag string, dec *imapwire.Decoder) error {
 		if err != nil {
 			return err
 		} else if isPrefix {
+			discardLongLine(c.br, isPrefix)
 			return fmt.Errorf("SASL response too long")
 		} else if string(encodedResp) == "*" {
 			return &imap.Error{
